@@ -130,7 +130,7 @@ struct ThreadOut {
 
 pub fn run_threads(prog: &Program, prop: &'static str, verbose: bool) -> RunResult {
     let n = prog.threads.len();
-    crate::RUN_STARTED_MS.store(std::time::SystemTime::now().duration_since(std::time::UNIX_EPOCH).map(|d| d.as_millis() as u64).unwrap_or(1), std::sync::atomic::Ordering::Relaxed);
+    crate::RUN_STARTED_MS.store(crate::next_run_stamp(), std::sync::atomic::Ordering::Relaxed);
     alloc::begin_run();
     rust_cc::verif::set_alloc_observer(Some(crate::callbacks::observer));
     let baton = Arc::new(Baton { turn: Mutex::new(Turn::Coordinator), cv: Condvar::new() });
